@@ -12,7 +12,7 @@
 //! one-line results (tree shape or error kind + span, and the whole span table)
 //! are compared: see `../c06/parse_diff.rs`.
 //!
-//! usage: c06 run <seed> <quick|thorough> [--parse-strict]
+//! usage: c06 run <seed> <quick|thorough> [--parse-strict] [--cases N] [--focus typeerrors]
 //!        c06 replay <json input>
 //!        c06 parse-replay <json string: the source text>
 //!        c06 worker gen <seed> <from> <n> | c06 worker corpus <from> <n> | c06 worker boundary <from> <n>
@@ -29,7 +29,7 @@ mod parse_diff;
 
 use generate::{Case, CaseFile};
 use roto::verif_hooks::c06::{char_flags, lex_all, report_locations, report_stage};
-use roto::{FileSpec, FileTree, Runtime, SourceFile};
+use roto::{Context, FileSpec, FileTree, Runtime, SourceFile};
 use rotov_harness::driver::{Driver, hex};
 use rotov_harness::{Prng, Report};
 use serde_json::{Value, json};
@@ -91,6 +91,20 @@ fn take_panic() -> (String, String) {
         .unwrap_or_else(|| ("unknown".into(), "panic".into()))
 }
 
+/// The context of the second runtime: cases whose kind ends in `[ctx]` are
+/// compiled with it (context variables `cx`, `flag` are in scope of every
+/// script; constants must not depend on them).
+#[derive(Clone, Context)]
+struct C06Ctx {
+    pub cx: u64,
+    pub flag: bool,
+}
+type CxRuntime = Runtime<roto::Ctx<C06Ctx>>;
+
+fn cx_runtime() -> CxRuntime {
+    Runtime::new().with_context_type::<C06Ctx>().expect("runtime with a context type")
+}
+
 fn build_tree(case: &Case) -> FileTree {
     fn sf(f: &CaseFile) -> SourceFile {
         SourceFile {
@@ -123,7 +137,9 @@ fn stage(name: &str) {
 }
 
 /// Compile one case stage by stage; returns the outcome bucket.
-fn run_case(rt: &Runtime<roto::NoCtx>, case: &Case, mut drv: Option<&mut Driver>, rep: &mut Report, idx: u64) {
+fn run_case(rts: &(Runtime<roto::NoCtx>, CxRuntime), case: &Case, mut drv: Option<&mut Driver>, rep: &mut Report, idx: u64) {
+    let rt = &rts.0;
+    let with_ctx = case.kind.ends_with("[ctx]");
     rep.evaluations += 1;
     let input = case.to_json();
     rep.hist("generator", case.kind.clone());
@@ -218,23 +234,29 @@ fn run_case(rt: &Runtime<roto::NoCtx>, case: &Case, mut drv: Option<&mut Driver>
     let tree = build_tree(case);
     let mut cur = "parse";
     stage(cur);
-    let res = catch_unwind(AssertUnwindSafe(|| -> Result<(), roto::RotoReport> {
-        let parsed = tree.parse()?;
-        cur = "typecheck";
-        stage(cur);
-        let checked = parsed.typecheck(rt)?;
-        cur = "lower-mir";
-        stage(cur);
-        let mir = checked.lower_to_mir();
-        cur = "lower-lir";
-        stage(cur);
-        let lir = mir.lower_to_lir();
-        cur = "codegen";
-        stage(cur);
-        let pkg = lir.codegen();
-        drop(pkg);
-        Ok(())
-    }));
+    // the stages are typed by the runtime's context: one expansion per runtime
+    macro_rules! stages {
+        ($rt:expr) => {
+            catch_unwind(AssertUnwindSafe(|| -> Result<(), roto::RotoReport> {
+                let parsed = tree.parse()?;
+                cur = "typecheck";
+                stage(cur);
+                let checked = parsed.typecheck($rt)?;
+                cur = "lower-mir";
+                stage(cur);
+                let mir = checked.lower_to_mir();
+                cur = "lower-lir";
+                stage(cur);
+                let lir = mir.lower_to_lir();
+                cur = "codegen";
+                stage(cur);
+                let pkg = lir.codegen();
+                drop(pkg);
+                Ok(())
+            }))
+        };
+    }
+    let res = if with_ctx { stages!(&rts.1) } else { stages!(rt) };
     let outcome = match res {
         Err(_) => {
             let (loc, msg) = take_panic();
@@ -293,6 +315,10 @@ fn run_case(rt: &Runtime<roto::NoCtx>, case: &Case, mut drv: Option<&mut Driver>
                                 input.clone(),
                             );
                         }
+                        if !color && st == "typechecker" {
+                            // which kind of type error: the description with every quoted name / type / number blanked
+                            rep.hist("type-error", error_kind(&text));
+                        }
                         if color && idx % 997 == 0 {
                             rep.sample(json!({"input": case.preview(), "stage": st, "report_head": text.lines().next()}));
                         }
@@ -319,6 +345,26 @@ fn run_case(rt: &Runtime<roto::NoCtx>, case: &Case, mut drv: Option<&mut Driver>
 
 thread_local! {
     static LEXED: RefCell<Vec<(String, Vec<(String, usize, usize)>)>> = const { RefCell::new(Vec::new()) };
+}
+
+/// first line of a rendered report without what it quotes: `Error: Type error: the variant `X` does not exist on `T``
+/// → `the variant _ does not exist on _`
+fn error_kind(text: &str) -> String {
+    let line = text.lines().next().unwrap_or("");
+    let line = line.rsplit("Type error: ").next().unwrap_or(line);
+    let mut out = String::new();
+    let mut quoted = false;
+    for c in line.chars() {
+        if c == '`' {
+            if !quoted {
+                out.push('_');
+            }
+            quoted = !quoted;
+        } else if !quoted {
+            out.push(if c.is_ascii_digit() { '#' } else { c });
+        }
+    }
+    out.chars().take(80).collect()
 }
 
 fn short_kind(k: &str) -> char {
@@ -397,7 +443,8 @@ fn worker(args: &[String]) {
     install_panic_hook();
     let t0 = Instant::now();
     start_watchdog(t0);
-    let rt = Runtime::new();
+    let rts = (Runtime::new(), cx_runtime());
+    let rt = &rts.0;
     let mut rep = Report::default();
     let mut drv = Driver::spawn().ok();
     let seeds = g::Seeds::load();
@@ -416,12 +463,12 @@ fn worker(args: &[String]) {
                 mark(true);
                 if idx % 25 == 24 {
                     if let Some(d) = drv.as_mut() {
-                        cycle_case(&rt, d, &mut p, &mut rep, idx);
+                        cycle_case(rt, d, &mut p, &mut rep, idx);
                         rep.evaluations += 1;
                     }
                 } else {
                     let case = g::generate(&mut p, &seeds);
-                    run_case(&rt, &case, drv.as_mut(), &mut rep, idx);
+                    run_case(&rts, &case, drv.as_mut(), &mut rep, idx);
                 }
                 mark(false);
             }
@@ -434,7 +481,7 @@ fn worker(args: &[String]) {
                 println!("START {idx}");
                 let _ = std::io::stdout().flush();
                 mark(true);
-                run_case(&rt, &corpus[idx].1, drv.as_mut(), &mut rep, idx as u64);
+                run_case(&rts, &corpus[idx].1, drv.as_mut(), &mut rep, idx as u64);
                 mark(false);
             }
         }
@@ -446,7 +493,7 @@ fn worker(args: &[String]) {
                 println!("START {idx}");
                 let _ = std::io::stdout().flush();
                 mark(true);
-                run_case(&rt, &cases[idx], drv.as_mut(), &mut rep, idx as u64);
+                run_case(&rts, &cases[idx], drv.as_mut(), &mut rep, idx as u64);
                 mark(false);
             }
         }
@@ -458,7 +505,7 @@ fn worker(args: &[String]) {
                 println!("START {idx}");
                 let _ = std::io::stdout().flush();
                 mark(true);
-                run_case(&rt, &cases[idx], drv.as_mut(), &mut rep, idx as u64);
+                run_case(&rts, &cases[idx], drv.as_mut(), &mut rep, idx as u64);
                 mark(false);
             }
         }
@@ -467,7 +514,7 @@ fn worker(args: &[String]) {
             let case = Case::from_json(&v).expect("case");
             println!("START 0");
             mark(true);
-            run_case(&rt, &case, drv.as_mut(), &mut rep, 0);
+            run_case(&rts, &case, drv.as_mut(), &mut rep, 0);
             mark(false);
         }
         _ => std::process::exit(64),
@@ -784,10 +831,15 @@ fn main() {
         Some("run") => {
             let seed: u64 = args.get(2).and_then(|s| s.parse().ok()).unwrap_or(1);
             let thorough = args.get(3).map(|s| s == "thorough").unwrap_or(false);
-            let total: u64 = std::env::var("C06_CASES")
-                .ok()
+            let flag = |name: &str| args.iter().position(|a| a == name).and_then(|i| args.get(i + 1)).cloned();
+            let total: u64 = flag("--cases")
+                .or_else(|| std::env::var("C06_CASES").ok())
                 .and_then(|s| s.parse().ok())
                 .unwrap_or(if thorough { 300_000 } else { 3_000 });
+            if let Some(f) = flag("--focus") {
+                // search mode: the random stream draws from the named classes only; inherited by the workers
+                unsafe { std::env::set_var("C06_FOCUS", f) };
+            }
             let jobs = std::thread::available_parallelism().map(|n| n.get()).unwrap_or(4).min(16);
             if args.iter().any(|a| a == "--parse-strict") {
                 // inherited by the workers; no other thread exists yet
@@ -820,6 +872,30 @@ fn main() {
                 boundary.get(i as usize).map(|c| c.to_json()).unwrap_or(Value::Null)
             });
             rep.notes.push(format!("boundary stream: {} class representatives run before the random stream", boundary.len()));
+            // measured, not assumed: every constructor of a type error was reached by the representatives
+            {
+                let reached = rep.histograms.get("type-error").cloned().unwrap_or_default();
+                let mut missing = vec![];
+                for (ctor, kind) in g::typeerrors::ERROR_KINDS {
+                    let n: u64 = reached.iter().filter(|(k, _)| k.starts_with(kind)).map(|(_, n)| *n).sum();
+                    rep.hist("type-error-constructor", format!("{ctor}: {kind}"));
+                    if n == 0 {
+                        missing.push(format!("{ctor} ({kind})"));
+                    }
+                }
+                if !missing.is_empty() {
+                    rep.mismatch(
+                        "the boundary stream no longer reaches every constructor of a type error (src/typechecker/error.rs)",
+                        json!({"key": "type-error-coverage", "missing": missing}),
+                    );
+                }
+                rep.notes.push(format!(
+                    "type errors: {} kinds of report seen in the corpus + boundary stream; all {} (constructor, kind) pairs of the table reached: {}",
+                    reached.len(),
+                    g::typeerrors::ERROR_KINDS.len(),
+                    missing.is_empty()
+                ));
+            }
             let seeds = g::Seeds::load();
             rep.notes.push(format!("seed programs harvested from the repository: {}", seeds.programs.len()));
             let batch = if thorough { 500 } else { 100 };
